@@ -107,6 +107,9 @@ def piecewise_linear_sample(
     :param n_samples: \
         The number of samples to draw from the distribution.
     """
+    # integer-typed tables would otherwise be processed in their own type below
+    x = array(x, dtype=float)
+    probability_density = array(probability_density, dtype=float)
     dx = x[1:] - x[:-1]
     if (dx <= 0.0).any():
         raise ValueError(
